@@ -79,11 +79,16 @@ func (f *Filter) removeWithRoot(value, root any) (out any, changed bool) {
 			out = ns
 		}
 	case map[string]any:
+		// Match all before removing any as the script might refer to $.
+		var keys []string
 		for k, v := range tv {
 			if f.matchWithRoot(v, root) {
-				delete(tv, k)
-				changed = true
+				keys = append(keys, k)
 			}
+		}
+		for _, k := range keys {
+			delete(tv, k)
+			changed = true
 		}
 	case gen.Array:
 		ns := make(gen.Array, 0, len(tv))
@@ -98,29 +103,39 @@ func (f *Filter) removeWithRoot(value, root any) (out any, changed bool) {
 			out = ns
 		}
 	case gen.Object:
+		var keys []string
 		for k, v := range tv {
 			if f.matchWithRoot(v, root) {
-				delete(tv, k)
-				changed = true
+				keys = append(keys, k)
 			}
+		}
+		for _, k := range keys {
+			delete(tv, k)
+			changed = true
 		}
 	case RemovableIndexed:
 		size := tv.Size()
+		matches := make([]bool, size)
+		for i := 0; i < size; i++ {
+			matches[i] = f.matchWithRoot(tv.ValueAtIndex(i), root)
+		}
 		for i := (size - 1); i >= 0; i-- {
-			v := tv.ValueAtIndex(i)
-			if f.matchWithRoot(v, root) {
+			if matches[i] {
 				tv.RemoveValueAtIndex(i)
 				changed = true
 			}
 		}
 	case Keyed:
-		keys := tv.Keys()
-		for _, key := range keys {
+		var keys []string
+		for _, key := range tv.Keys() {
 			v, _ := tv.ValueForKey(key)
 			if f.matchWithRoot(v, root) {
-				tv.RemoveValueForKey(key)
-				changed = true
+				keys = append(keys, key)
 			}
+		}
+		for _, key := range keys {
+			tv.RemoveValueForKey(key)
+			changed = true
 		}
 	default:
 		rv := reflect.ValueOf(value)
@@ -155,13 +170,15 @@ func (f *Filter) removeWithRoot(value, root any) (out any, changed bool) {
 				out = ns.Interface()
 			}
 		case reflect.Map:
-			keys := rv.MapKeys()
-			for _, k := range keys {
-				mv := rv.MapIndex(k)
-				if f.matchWithRoot(mv.Interface(), root) {
-					rv.SetMapIndex(k, reflect.Value{})
-					changed = true
+			var keys []reflect.Value
+			for _, k := range rv.MapKeys() {
+				if f.matchWithRoot(rv.MapIndex(k).Interface(), root) {
+					keys = append(keys, k)
 				}
+			}
+			for _, k := range keys {
+				rv.SetMapIndex(k, reflect.Value{})
+				changed = true
 			}
 		}
 	}
